@@ -263,6 +263,9 @@ class FaultRun(object):
             self.cas.fail_save = fail_save
             del self.cas.spy_log[:]
             del self.cas.spy_save_times[:]
+        self.prior_same = None
+        if flags.get('prior_same_class') and enabled and self.async_cas is None:
+            self._run_earlier_on_same_class(prog)
         self.before = self.zoo.snapshot(self.cas)
         import time
         import datetime
@@ -286,6 +289,53 @@ class FaultRun(object):
             self.async_cas.close()      # everything requested so far reaches the wrapped storage
         self.after = self.zoo.snapshot(self.cas)
         self.spy_log = list(self.cas.spy_log)
+
+    def _run_earlier_on_same_class(self, prog):
+        """History on the same recorder AND the same operation class: an earlier, fault-free run of this very class that
+        ends the other way (it raises an ordinary exception) and whose extractor, if any, gives other user metadata.
+        Keeps (id, metadata) of its recording in self.prior_same; leaves the world journals empty."""
+        saved = dict((k, prog.get(k)) for k in ('steps', 'ending', 'ending_exc', 'extractor', 'extractor_meta',
+                                                'params_fault', 'extractor_sleep_ms'))
+        clean = [copy.deepcopy(s) for s in prog['steps'] if s['t'] in ('in', 'out', 'sleep')]
+        for s in clean:
+            for k in ('hfail', 'resolver_fault', 'swallow_interrupt'):
+                s.pop(k, None)
+            if s['t'] != 'sleep':
+                if s.get('a') in (UNENC, VECTOR):
+                    s['a'] = 0
+                if s.get('ret') in (UNENC, VECTOR) or s['beh'] != 'ret':
+                    s['ret'] = 'earlier'
+                s['beh'] = 'ret'
+        fail_save, self.cas.fail_save = self.cas.fail_save, False
+        try:
+            prog.update(steps=clean, ending='raise', ending_exc='Err', extractor_sleep_ms=0)
+            prog.pop('params_fault', None)
+            if saved.get('extractor', 'none') not in (None, 'none'):
+                prog['extractor'] = 'ok'
+                prog['extractor_meta'] = [['user_key', 'EARLIER RUN'], ['n', 99], ['earlier_only', 'x']]
+            PS.assign_sids(prog)
+            n0 = len(self.cas.spy_log)
+            PS.execute(self.cls, prog)
+            saves = [e for e in self.cas.spy_log[n0:] if e[0] == 'save']
+            if len(saves) == 1:
+                rid = saves[0][1]
+                self.prior_same = (rid, copy.deepcopy(dict(
+                    (k, v) for k, v in self.cas.get_recording_metadata(rid).items() if not isinstance(v, type))))
+        finally:
+            for k, v in saved.items():
+                if v is None:
+                    prog.pop(k, None)
+                else:
+                    prog[k] = v
+            PS.assign_sids(prog)
+            self.cas.fail_save = fail_save
+        W = self.W
+        del W.journal[:], W.outcalls[:], W.call_copies[:], W.recording_ids[:], W.stale_exceptions[:]
+        W.sites.clear()
+        W.body_out.clear()
+        W.shared.clear()
+        del self.cas.spy_log[:]
+        del self.cas.spy_save_times[:]
 
     def close(self):
         PS.forget_class(self.cls)
